@@ -321,10 +321,19 @@ var c03Probes = []struct {
 	{"negated function held by value", &jast.Neg{X: c03ByValueFn("distinct")}},
 }
 
-// c03ByValueFn: $fn([$sum, $count])[0] - a function that a library function
-// has handed back (the library stores such members by value)
+// c03ByValueFn: a function that a library function has handed back; the
+// library wraps a single value into an array after dereferencing it, so such a
+// function is held by value ($single($sum, function($f){true}), $filter(..)[0],
+// $reduce($sum, function($a,$b){$b}))
 func c03ByValueFn(fn string) jast.Node {
-	return &jast.Pred{X: &jast.Call{Fn: &jast.Var{Name: fn}, Args: []jast.Node{&jast.Array{Items: []jast.Node{&jast.Var{Name: "sum"}, &jast.Var{Name: "count"}}}}}, Filters: []jast.Node{&jast.Num{V: 0}}}
+	always := &jast.Lambda{Params: []string{"f"}, Body: &jast.Bool{V: true}}
+	switch fn {
+	case "distinct":
+		return &jast.Call{Fn: &jast.Var{Name: "single"}, Args: []jast.Node{&jast.Var{Name: "sum"}, always}}
+	case "reverse":
+		return &jast.Pred{X: &jast.Call{Fn: &jast.Var{Name: "filter"}, Args: []jast.Node{&jast.Var{Name: "count"}, always}}, Filters: []jast.Node{&jast.Num{V: 0}}}
+	}
+	return &jast.Call{Fn: &jast.Var{Name: "reduce"}, Args: []jast.Node{&jast.Var{Name: "sum"}, &jast.Lambda{Params: []string{"a", "b"}, Body: &jast.Var{Name: "b"}}}}
 }
 
 func init() {
